@@ -47,6 +47,7 @@ type progOpts struct {
 	Thread              bool `json:"thread"` // run the program in a state made by NewThread, the context attached to THAT state
 	Fresh               bool `json:"fresh"`  // no library is opened: running the program is the very first call on the state
 	Foot                bool `json:"foot"`   // record the per-instruction register footprint of the main thread (FramesStep)
+	Resumed             bool `json:"resumed"` // the program is the body of a thread that alone has the context; a context-less state drives it with Resume
 }
 
 type progIn struct {
@@ -352,7 +353,7 @@ func runProgram(p progIn) (res progOut) {
 	}
 	ctx := newDetCtx(budget, p.Fault)
 	R := L // the state that runs the program
-	if p.Opts != nil && p.Opts.Thread {
+	if p.Opts != nil && (p.Opts.Thread || p.Opts.Resumed) {
 		R, _ = L.NewThread()
 	}
 	if p.Opts == nil || !p.Opts.NoContext {
@@ -501,11 +502,25 @@ func runProgram(p progIn) (res progOut) {
 	if p.Snap {
 		res.Snaps = append(res.Snaps, snapRecord(R, -1, "go-before"))
 	}
+	if p.Opts != nil && p.Opts.Resumed {
+		// L (no context) resumes R (the only state with the context) until the body has finished
+		st, rerr, vals := L.Resume(R, fn)
+		for rerr == nil && st == lua.ResumeYield {
+			st, rerr, vals = L.Resume(R, fn)
+		}
+		if rerr == nil {
+			res.Outcome = []interface{}{"ok", tk.toks(vals)}
+			return
+		}
+		err = rerr
+		goto failed
+	}
 	R.Push(fn)
 	err = R.PCall(0, lua.MultRet, nil)
 	if p.Snap {
 		res.Snaps = append(res.Snaps, snapRecord(R, -1, "go-after"))
 	}
+failed:
 	if err != nil {
 		if ctx.timedOut || (ctx.fired && ctx.reason != nil && ctx.reason.Error() == "verif-budget") {
 			// "cancelled": the planned/host cancellation had made the context done before the
